@@ -95,7 +95,7 @@ PROPS = {
         "assumptions": ["G9.UfsLogic mirrors the arithmetic/decision logic of ufs.go and the client file helpers (checked by the differential run)", "runs as the current user; permission-denied outcomes are never required"],
     },
     "C17": {
-        "rule": 'twin trees: random sequences of create/mkdir/remove/write/truncate/chmod/rename (free and occupied names)/set-mtime applied through 9P to one copy and with the os package to the other, compared after every step (names, kinds, contents, permission bits, link targets, link counts) together with success/failure and, in .u, the errno; the open-flag table compared for all 256 modes; for every create/mkdir/symlink/link/truncate/chmod/rename/set-mtime that reaches Ufs, the plan of POSIX calls of G9.UfsPlan (compared line by line with the harness's rendering) is applied to a third tree, which must equal the exported tree afterwards, with the same success/failure. non-trivial = distinct scenarios + table rows',
+        "rule": 'twin trees: random sequences of create/mkdir/remove/write/truncate/chmod/rename (free and occupied names)/set-mtime applied through 9P to one copy and with the os package to the other, compared after every step (names, kinds, contents, permission bits, link targets, link counts) together with success/failure and, in .u, the errno; the open-flag table compared for all 256 modes; for every create/mkdir/symlink/link/truncate/chmod/rename/set-mtime that reaches Ufs, the plan of POSIX calls of G9.UfsPlan (compared line by line with the rendering of the harness) is applied to a third tree, which must equal the exported tree afterwards, with the same success/failure. non-trivial = distinct scenarios + table rows',
         "modelled": ['modelled, not verified: everything the operating system does (Lstat, ReadAt, WriteAt, Readdir, Mkdir, Symlink, Link, Remove, Rename, Truncate, Chmod, Chtimes), os/user, time; sort.SearchInts as first-index->= on a sorted slice'],
         "assumptions": ["G9.UfsLogic mirrors the arithmetic/decision logic of ufs.go and the client file helpers (checked by the differential run)", "runs as the current user; permission-denied outcomes are never required"],
     },
